@@ -52,8 +52,9 @@ def _at(seq, i):
 
 
 class Table:
-    def __init__(self, s, log, lifetimes=(None,), ignores=(False,)):
+    def __init__(self, s, log, lifetimes=(None,), ignores=(False,), role=None):
         self.s = s
+        self.role = role                    # maps a scheduler thread to the name recorded as the spawner
         self.log = log                      # list shared with the harness
         self.lifetimes = tuple(lifetimes)
         self.ignores = tuple(ignores)
@@ -77,7 +78,8 @@ class Table:
         self.children.append(ch)
         self.by_pid[pid] = ch
         me = s.me()
-        self.log.append(("spawn", pid, s.clock, ch.deadline, me.name if me else "?"))
+        by = "?" if me is None else (self.role(me) if self.role else me.name)
+        self.log.append(("spawn", pid, s.clock, ch.deadline, by))
         return ch
 
     def signal(self, pid, sig):
